@@ -240,7 +240,8 @@ fn main() {
                                           else { vec![("guards3", true, 3), ("guards4", false, 4)] };
     for (site, full, len) in plans {
         let alpha = guard_alphabet(full);
-        for prefix in &prefixes {
+        for (pi, prefix) in prefixes.iter().enumerate() {
+            if a.thorough && pi == 0 && len >= 5 { continue; } // longest sequences: only the layouts with nested scopes
             product(&alpha, len, |seq| {
                 let mut ops = prefix.clone();
                 ops.extend(seq);
@@ -313,6 +314,12 @@ fn main() {
                 ops.push("(locks)".into());
                 // probes: a stale marker or a misplaced value shows in later holdings
                 ops.push(ex("(hold 0 1 ok)"));
+                ops.push(ex("(hold 1 1 ok)"));
+                ops.push("(locks)".into());
+                // a marker left in an inner scope misleads a later holding of the value further out
+                ops.push(ex("(rem 0)"));
+                ops.push(ex("(hold 0 1 ok)"));
+                ops.push(ex("(rem 1)"));
                 ops.push(ex("(hold 1 1 ok)"));
                 ops.push("(locks)".into());
                 emit(if same { "holding-samekey" } else { "holding" }, ops);
